@@ -191,6 +191,8 @@ fn c02(tier: Tier) -> Vec<SeqCfg> {
     a.push(set(K2, b"o", 0, 0));
     a.push(store(StoreKind::Set, K2, b"p", 0, 0, Current));
     a.push(get(K2));
+    // a pending delayed flush rewrites item metadata: tokens must survive it
+    a.push(flush(Some(3)));
     let d = if tier == Tier::Quick { 6 } else { 8 };
     let mut v = vec![base("C02/cas", "C02", a, d, tier)];
     // CAS-carrying stores that also carry a TTL, on a server whose clock is far from 0
@@ -206,6 +208,7 @@ fn c02(tier: Tier) -> Vec<SeqCfg> {
         incr(K1, 1, 10, 2, Stale1),
         delete(K1, Stale1),
         get(K1),
+        flush(Some(2)),
         tick(1),
         tick(3),
     ];
@@ -218,10 +221,11 @@ fn c02(tier: Tier) -> Vec<SeqCfg> {
 fn c05(tier: Tier) -> Vec<SeqCfg> {
     use CasArg::Zero;
     let a = vec![
+        // value and flags collide pairwise: only the TTL tells these stores apart
         set(K1, b"1", 1, 0),
         set(K1, b"2", 2, 1),
-        set(K1, b"3", 3, 2),
-        set(K1, b"4", 4, 3),
+        set(K1, b"1", 1, 2),
+        set(K1, b"2", 2, 3),
         set(K1, b"5", 5, DAYS30),
         add(K1, b"6", 6, 2),
         replace(K1, b"7", 7, 2),
